@@ -58,6 +58,7 @@ type seqCase struct {
 	PrefixLen    int   `json:"prefix_len"`
 	Unterminated bool  `json:"unterminated"` // last line has no EOL
 	CRLF         bool  `json:"crlf"`
+	AltEOL       bool  `json:"alt_eol,omitempty"` // odd lines end with CRLF, even ones with LF
 }
 
 func (c *seqCase) input() ([]byte, [][]byte) {
@@ -69,6 +70,9 @@ func (c *seqCase) input() ([]byte, [][]byte) {
 	}
 	for i, li := range c.Lines {
 		t := mon.Alphabet[li].Text()
+		if c.AltEOL {
+			eol = []string{"\n", "\r\n"}[i%2]
+		}
 		if !(c.Unterminated && i == len(c.Lines)-1) {
 			t += eol
 		}
@@ -331,6 +335,12 @@ func seqEnumerate(r *core.Run, L int, clauses string, stride int) {
 			seqEval(r, &c3, clauses)
 			nd++
 		}
+		if k%7 == 3 {
+			c4 := *c
+			c4.AltEOL = true
+			seqEval(r, &c4, clauses)
+			nd++
+		}
 		r.DistinctN(nd)
 		if k == 4321 {
 			r.Sample(map[string]any{"state": sp.State, "sequence": c.names()})
@@ -473,7 +483,7 @@ func tailFrom(b []byte, i int) []byte {
 func genStreamCase(r *core.Run, sub uint64, i int) *streamCase {
 	rr := core.NewRand(r.Seed, sub, uint64(i))
 	cfg := &gen.StreamCfg{MaxDumps: 5, RaceChance: 3, NoFinalEOLChance: 2,
-		Junk:    gen.JunkCfg{Separators: true, Long: i%9 == 0, Binary: true},
+		Junk:    gen.JunkCfg{Separators: true, Long: i%9 == 0, Binary: true, MixedEOL: i%6 == 1},
 		DumpCfg: gen.Cfg{MaxG: 4, MaxFrames: 6, MaxDepth: 3, LongLines: i%31 == 0}}
 	c := &streamCase{Stream: gen.GenStream(rr, cfg)}
 	switch i % 5 {
